@@ -361,6 +361,13 @@ def make_menu(g, tab, item):
     add(P + "to_gfa1", R, ["call", "to_gfa1", [], {"raise_on_failure":
                                                    ["lit", False]}])
     lc_caveat = rt in ("L", "C") and l.is_connected() and not l.get("ID")
+    if rt == "P" and l.is_connected():
+      # converting a path converts (and therefore identifies) its links: the
+      # same documented ID assignment, one step removed
+      try:
+        lc_caveat = any(not ol.line.get("ID") for ol in l.links)
+      except Exception:
+        lc_caveat = True
     if not lc_caveat:
       add(P + "to_gfa2_s", R, ["call", "to_gfa2_s", []])
       add(P + "to_gfa2", R, ["call", "to_gfa2", [], {"raise_on_failure":
@@ -1133,7 +1140,8 @@ def run(ctx):
       "value_queries": {"alignment": [str(o) for o in ALN_OPS],
                         "position": [str(o) for o in POS_OPS],
                         "oriented": [str(o) for o in OL_OPS]},
-      "excluded": ["to_gfa2_s / to_gfa2 of a connected L/C without ID and of a "
+      "excluded": ["to_gfa2_s / to_gfa2 of a connected P line whose links have no ID, "
+                   "to_gfa2_s / to_gfa2 of a connected L/C without ID and of a "
                    "GFA1 Gfa holding one (documented to assign an ID)",
                    "unused_name() (advances a counter)"]}
   ctx.assumptions = [
